@@ -29,6 +29,8 @@ func ccittMakeUpStates(c *core.Ctx) []int64 {
 }
 
 type ccittPath struct {
+	// defs: the boolean locals assigned on the path so far, with the value given last
+	defs      map[types.Object]ast.Expr
 	atoms     []core.Atom
 	vs        []*core.V
 	exhausted *ast.RangeStmt // the path leaves through the "done" edge of this range loop
@@ -118,8 +120,41 @@ func ruleCCITTRunLoops(c *core.Ctx, rule string) {
 					if len(paths) > 4000 {
 						return
 					}
+					// a boolean local assigned on the path (done = total > r.Columns) and tested later
+					// stands for the value it was given
+					defs := p.defs
+					if a, isAs := u.AST.(*ast.AssignStmt); isAs && len(a.Lhs) == len(a.Rhs) && (a.Tok == token.ASSIGN || a.Tok == token.DEFINE) {
+						for i, l := range a.Lhs {
+							if id, isID := ast.Unparen(l).(*ast.Ident); isID {
+								if obj := info.ObjectOf(id); obj != nil && isBoolObj(obj) {
+									nd := map[types.Object]ast.Expr{}
+									for k, v := range defs {
+										nd[k] = v
+									}
+									nd[obj] = a.Rhs[i]
+									defs = nd
+								}
+							}
+						}
+					}
 					for _, e := range u.Succs {
-						q := ccittPath{atoms: append(append([]core.Atom{}, p.atoms...), u.Implied(e.Label)...), vs: append(append([]*core.V{}, p.vs...), e.To)}
+						var implied []core.Atom
+						for _, a := range u.Implied(e.Label) {
+							if id, isID := ast.Unparen(a.Expr).(*ast.Ident); isID && a.Tag == nil {
+								if rhs, has := defs[info.ObjectOf(id)]; has {
+									if cv := core.ConstOf(info, rhs); cv != nil && cv.Kind() == constant.Bool {
+										if constant.BoolVal(cv) == a.Neg {
+											implied = append(implied, core.Atom{Expr: core.FalseExpr}) // the edge cannot be taken
+										}
+										continue
+									}
+									implied = append(implied, core.ImpliedBy(rhs, !a.Neg)...)
+									continue
+								}
+							}
+							implied = append(implied, a)
+						}
+						q := ccittPath{defs: defs, atoms: append(append([]core.Atom{}, p.atoms...), implied...), vs: append(append([]*core.V{}, p.vs...), e.To)}
 						if u.Cond != nil && u.Cond.Range != nil && e.Label == core.EdgeFalse {
 							q.exhausted = u.Cond.Range
 						}
@@ -270,6 +305,35 @@ func ruleCCITTLookahead(c *core.Ctx, rule string) {
 		if f := c.Prog.FuncOpt(ccittPk, "(*Reader).consumeBits"); f != nil {
 			layer[f.Key] = true
 		}
+		// helpers that only the bit-buffer layer calls (the byte fetch split off peekBits) belong to it
+		for round := 0; round < 2; round++ {
+			for _, fn := range c.Prog.Funcs(pkg) {
+				if fn.Decl.Body == nil || layer[fn.Key] || fn.Obj.Exported() || c.Prog.IsTestFile(fn.Decl.Pos()) {
+					continue
+				}
+				callers, outside := 0, false
+				for _, other := range c.Prog.Funcs(pkg) {
+					if other.Decl.Body == nil || other == fn || c.Prog.IsTestFile(other.Decl.Pos()) {
+						continue
+					}
+					raw := c.Prog.RawFunc(ccittPk, strings.TrimPrefix(other.Key, ccittPk+"."))
+					if raw == nil {
+						raw = other
+					}
+					for _, cs := range core.CallsIn(raw.Info(), raw.Decl.Body, true) {
+						if cs.Fn != nil && cs.Fn == fn.Obj {
+							callers++
+							if !layer[other.Key] {
+								outside = true
+							}
+						}
+					}
+				}
+				if callers > 0 && !outside {
+					layer[fn.Key] = true
+				}
+			}
+		}
 		fieldOf := func(info *types.Info, e ast.Expr) *types.Var {
 			sel, ok := ast.Unparen(e).(*ast.SelectorExpr)
 			if !ok {
@@ -331,7 +395,7 @@ func ruleCCITTLookahead(c *core.Ctx, rule string) {
 			}
 			return true
 		})
-		o.Require(stores >= 2, "peekBits no longer fills the bit buffer")
+		o.Shape(stores >= 2, "the stores by which peekBits fills the bit buffer were not found (the buffer moved into another type?)")
 		// calls made by peekBits stay inside the layer or outside the package
 		for _, cs := range core.CallsIn(peek.Info(), peek.Decl.Body, true) {
 			if cs.Fn != nil && cs.Fn.Pkg() != nil && strings.HasSuffix(cs.Fn.Pkg().Path(), "ccittfax") && !layer[cs.Key] {
@@ -349,6 +413,59 @@ func ruleCCITTLookahead(c *core.Ctx, rule string) {
 func ruleCCITTTagAfterEOL(c *core.Ctx, rule string) {
 	pkg := c.Prog.Pkg(ccittPk)
 	sites := 0
+	// edges on which K > 0 is known to be false
+	notKEdges := func(fn *core.Func, g *core.Graph) []core.EdgeRef {
+		return g.GuardEdges(func(a core.Atom) bool {
+			cmp, ok := a.AsCmp()
+			if !ok || !strings.HasSuffix(c.Prog.Src(cmp.L), ".K") {
+				return false
+			}
+			tv := fn.Info().Types[cmp.R]
+			if tv.Value == nil {
+				return false
+			}
+			k, _ := constant.Int64Val(tv.Value)
+			switch cmp.Op {
+			case token.LEQ, token.EQL:
+				return k <= 0
+			case token.LSS:
+				return k <= 1
+			}
+			return false
+		})
+	}
+	isTagRead := func(fn *core.Func, cs core.CallSite) bool {
+		if strings.HasSuffix(cs.Key, ".(*Reader).readBits") || strings.HasSuffix(cs.Key, ".(*Reader).consumeBits") {
+			if len(cs.Call.Args) == 1 {
+				if tv := fn.Info().Types[cs.Call.Args[0]]; tv.Value != nil && tv.Value.String() == "1" {
+					return true
+				}
+			}
+		}
+		return false
+	}
+	// helpers of the package that read the tag bit (when K > 0) on every path to their return
+	tagHelper := map[string]bool{}
+	for _, h := range c.Prog.Funcs(pkg) {
+		if h.Decl.Body == nil || h.Decl.Recv == nil || c.Prog.IsTestFile(h.Decl.Pos()) {
+			continue
+		}
+		hg := h.Graph()
+		var ht []*core.V
+		for _, v := range hg.Vs {
+			if v.AST == nil {
+				continue
+			}
+			for _, cs := range core.CallsIn(h.Info(), v.AST, false) {
+				if isTagRead(h, cs) {
+					ht = append(ht, v)
+				}
+			}
+		}
+		if len(ht) > 0 && !hg.ReachFrom(hg.Entry, true, core.AvoidVs(ht...).WithEdges(notKEdges(h, hg)...))[hg.Exit] {
+			tagHelper[h.Key] = true
+		}
+	}
 	for _, fn := range c.Prog.Funcs(pkg) {
 		if fn.Decl.Body == nil || fn.Decl.Recv == nil || c.Prog.IsTestFile(fn.Decl.Pos()) {
 			continue
@@ -365,12 +482,10 @@ func ruleCCITTTagAfterEOL(c *core.Ctx, rule string) {
 					runs = append(runs, v)
 				case strings.HasSuffix(cs.Key, ".(*Reader).waitForOne"):
 					eols = append(eols, v)
-				case strings.HasSuffix(cs.Key, ".(*Reader).readBits") || strings.HasSuffix(cs.Key, ".(*Reader).consumeBits"):
-					if len(cs.Call.Args) == 1 {
-						if tv := fn.Info().Types[cs.Call.Args[0]]; tv.Value != nil && tv.Value.String() == "1" {
-							tags = append(tags, v)
-						}
-					}
+				case isTagRead(fn, cs):
+					tags = append(tags, v)
+				case tagHelper[cs.Key]:
+					tags = append(tags, v)
 				}
 			}
 		}
@@ -381,25 +496,7 @@ func ruleCCITTTagAfterEOL(c *core.Ctx, rule string) {
 			sites++
 			fn, g, w := fn, g, w
 			c.Check(rule, fmt.Sprintf("%s/eol#%d", fn.Key, i), "after an EOL the tag bit is read before the next run-length code when K > 0", func(o *core.Ob) {
-				// edges on which K > 0 is known to be false
-				notK := g.GuardEdges(func(a core.Atom) bool {
-					cmp, ok := a.AsCmp()
-					if !ok || !strings.HasSuffix(c.Prog.Src(cmp.L), ".K") {
-						return false
-					}
-					tv := fn.Info().Types[cmp.R]
-					if tv.Value == nil {
-						return false
-					}
-					k, _ := constant.Int64Val(tv.Value)
-					switch cmp.Op {
-					case token.LEQ, token.EQL:
-						return k <= 0
-					case token.LSS:
-						return k <= 1
-					}
-					return false
-				})
+				notK := notKEdges(fn, g)
 				reach := g.ReachFrom(w, false, core.AvoidVs(tags...).WithEdges(notK...))
 				o.Count(len(runs))
 				for _, r := range runs {
@@ -489,6 +586,19 @@ func substIdent(info *types.Info, e ast.Expr, obj types.Object, repl ast.Expr) a
 			return nil
 		}
 		return &ast.BinaryExpr{X: l, Op: x.Op, Y: r}
+	case *ast.CallExpr:
+		// a predicate of the package applied to the value (isMakeUp(state)): the callee is kept,
+		// the arguments are substituted
+		if mentionsObj(info, x.Fun, obj) {
+			return nil
+		}
+		args := make([]ast.Expr, len(x.Args))
+		for i, a := range x.Args {
+			if args[i] = substIdent(info, a, obj, repl); args[i] == nil {
+				return nil
+			}
+		}
+		return &ast.CallExpr{Fun: x.Fun, Lparen: x.Lparen, Args: args, Rparen: x.Rparen}
 	}
 	if mentionsObj(info, e, obj) {
 		return nil
